@@ -177,6 +177,13 @@ POSITIONS = [
     ('cjal', 'c.jal {}', lambda v: -2048 <= v <= 2046 and v % 2 == 0),
     ('cbeqz', 'c.beqz x8, {}', lambda v: -256 <= v <= 254 and v % 2 == 0),
     ('caddi', 'c.addi x9, {}', lambda v: -32 <= v <= 31 and v != 0),
+    # register aliases in hand-written compressed instructions
+    ('c-regalias-rd', 'c.addi {}, 1', lambda v: 1 <= v <= 31),
+    ('c-regalias-mv', 'c.mv {}, x9', lambda v: 1 <= v <= 31),
+    ('c-regalias-rs2', 'c.add x9, {}', lambda v: 1 <= v <= 31),
+    ('c-regalias-base', 'c.lw x8, 4({})', lambda v: 8 <= v <= 15),
+    ('c-regalias-jr', 'c.jr {}', lambda v: 1 <= v <= 31),
+    ('c-regalias-sub', 'c.sub {}, x9', lambda v: 8 <= v <= 15),
 ]
 
 
@@ -211,6 +218,7 @@ def subst_case(args):
                        'bytes_n', 'pack_fmt', 'db2', 'li_v', 'x1_copy', 'a0b', 'sp_top', 'nop_count', 'ret_addr', 'c_j'])
     pre = ['addi x0 x0 0'] * rnd.randrange(0, 3)
     post = ['HERE:', 'addi x0 x0 0']
+    same_label = rnd.random() < 0.25
     lit = str(v) if rnd.random() < 0.5 or v < 0 else hex(v)
     defs = ['%s = %s' % (name, lit)]
     if 0x20 <= v < 0x7f and rnd.random() < 0.6:
@@ -220,6 +228,12 @@ def subst_case(args):
         # an earlier definition of the same name, superseded (possibly in terms of itself) before the use
         first = rnd.choice([v + 1, 0, -v, 7])
         defs = ['%s = %d' % (name, first), '%s = %s - %d' % (name, name, first - v)] if rnd.random() < 0.5 else ['%s = %d' % (name, first)] + defs
+    if same_label:
+        # a label of the same name (in both programs): the constant is what the name means wherever both exist
+        if rnd.random() < 0.5:
+            post = post + [name + ':', 'addi x0 x0 0']
+        else:
+            pre = pre + [name + ':']
     with_const = '\n'.join(defs + pre + ['    ' + tmpl.format(name)] + post) + '\n'
     literal = '\n'.join(pre + ['    ' + tmpl.format(lit)] + post) + '\n'
     out = dict(kind='subst', src=with_const, literal=literal, position=pname, problems=[], status=None)
